@@ -197,6 +197,10 @@ def bind2_decorators(ctx, modules: Iterable[str]) -> int:
         if fi.module not in mods or not fi.is_jit:
             continue
         pp = fi.pos_params()
+        if getattr(fi, "static_unknown", False):
+            ctx.rep.note(f"{fi.qualname}: the static arguments of its jit decorator are computed at import time; the "
+                         f"static-argument rule is not applied")
+            continue
         st = set(fi.static_argnums or ())
         mod = p.modules[fi.module]
         problems = []
